@@ -47,6 +47,26 @@ CHECKS = {
                 ref="DESIGN.md 4/C09",
                 text="held on the explored hypergraphs (non-contiguous/string labels, all orders present and absent, dense stress family, uniform tensors, temporal snapshots) except the open known finding (uint8 wrap-around at 256 shared hyperedges); exploration",
                 note="integer matrices compared exactly; per-order variants and Laplacians judged on unweighted inputs as the statement says"),
+    "C10": dict(tech="runtime monitoring: " + POST + " (bipartite_projection, clique_projection, line_graph, directed_line_graph, simplicial_complex): vertices, id tables, adjacency and weights recomputed from the incidence structure; thresholds chosen to hit similarity values exactly",
+                ref="DESIGN.md 4/C10",
+                text="held on the explored hypergraphs / directed hypergraphs x both distances x all thresholds x weighted both; exploration",
+                note="<= 8 nodes, sizes 1-5; empty face of the simplicial complex tolerated"),
+    "C11": dict(tech="runtime monitoring: postcondition oracle comparing compute_motifs with brute-force enumeration over all 3-/4-subsets + metamorphic pair (relabelling, insertion order); thorough tier enumerates every connected labelled pattern on 3 and 4 nodes as single-motif inputs; directed census checked for relabelling invariance, canonical representatives and ignoring larger hyperedges",
+                ref="DESIGN.md 4/C11",
+                text="held on the explored inputs; the single-motif sub-space (12 + 1990 patterns) is covered exhaustively in the thorough tier; exploration",
+                note="integer labels, <= 9 nodes; canonical form by exhaustive permutation"),
+    "C12": dict(tech="runtime monitoring: " + POST + " (measures.directed.*): degrees, signature cells and the three reciprocities recomputed from their definitions for every bound 2..8 and every filter",
+                ref="DESIGN.md 4/C12",
+                text="held on the explored directed hypergraphs (forced reversed / partially reversed pairs) x all bounds; exploration",
+                note="reciprocity defined on the hyperedges within the size bound"),
+    "C13": dict(tech="runtime monitoring: invariant at a hook (sys.monitoring PY_RETURN on the nested mh_step closure / LINE at the loop heads of the directed model observes the chain after every step) + output postcondition (decides) on degrees per size, size/shape multisets and untouched sizes",
+                ref="DESIGN.md 4/C13",
+                text="held on the explored inputs x parameters x seeds, with every chain step of the edge/stub model observed; exploration over random outcomes",
+                note="numpy.random / random seeded by the harness; 'for all outcomes' is decided only for the seeds run"),
+    "C14": dict(tech="runtime monitoring: " + POST + " (random_hypergraph, random_uniform_hypergraph, scale_free_hypergraph, HOADmodel, add_random_edge(s), random_shuffle(_all_orders)) + sys.monitoring probe on random_shuffle exposing which hyperedges were rewired and the node pool",
+                ref="DESIGN.md 4/C14",
+                text="held on the explored parameter draws x 3 seeds each; exploration over random outcomes",
+                note="requested counts never exceed the number of possible hyperedges; an add_random_edge draw that already exists may add 1 to its weight / reset its metadata (C01 re-insertion semantics)"),
 }
 
 PENDING = {}
